@@ -370,6 +370,10 @@ def check_c12(tier):
                        "values returned together with an error are not compared; after an error only the cursor staying in range is required"]
     # the decoder sees the stream only through Read calls: every fragmentation / end-of-input form / failure after k bytes (ReaderFaults.tla)
     from rf_checks import reader_faults
+    # the 32-bit boundary of a string length with the content really present (about 8 GiB of memory for some seconds; run only
+    # when three times that is available)
+    from huge_checks import huge as _huge
+    _huge(rep, "C12", "cbordec2g", need_gib=24)
     reader_faults(rep, "C12", ["cbor"], tier)
     # calls on independent objects running in parallel do not interfere (Trace_Purity, race detector)
     from purity_checks import parallel_cold
